@@ -1,18 +1,19 @@
 PROPS["C10"] = dict(
     pkg="p_map", hooks=[], level="exploration", design="DESIGN.md §4 C10",
     technique="stateful model-based PBT (rapid) against a sequence-number model + bounded-exhaustive histories",
-    rule="case = (key alphabet size 2..300, bound on open iterators, op list over Add/Remove/Get/Len/First/NewIterator/HasNext(i)/"
+    rule="case = (key alphabet size 2..5000, bound on open iterators, op list over Add/Remove/Get/Len/First/NewIterator/HasNext(i)/"
          "Next(i)/Close(i); i is taken modulo the number of open iterators, an iterator op with no iterator open and NewIterator at the "
          "bound are no-ops, so every list is executable). Exhaustive part: alphabet = Add/Remove of every key, First, NewIterator, "
          "HasNext/Next/Close of every iterator slot, for (2 keys, 2 iterators) and (3 keys, 3 iterators), all lists up to the depths in "
          "exhaustive_parts; only the canonical lists are run (no no-op, no index needing the modulo) because every other list is the "
          "same history as a canonical list that is not longer; Len and Get of every key are called after every step, so they are not "
-         "separate letters. Rapid part: lists of up to 100 (thorough 400) ops; key alphabet size drawn from {2,3,4,8,32,100,300}, bound on "
-         "open iterators from {1,2,3,6,12,24}; besides the single calls the list may hold bulk ops - add/remove a key range (either direction), "
-         "open n iterators, n x Next on one or on every open iterator, close all - which Run expands into the single calls and judges one by one "
-         "with the same model (at most 30000 single calls per case, the rest of the list is dropped). On a map with more than 8 keys or more than "
+         "separate letters. Rapid part: lists of up to 100 (thorough 400) ops; key alphabet size drawn from {2,3,4,8,32,100,300} and in about one case "
+         "of 40 (thorough: 80) from {1500,3000,5000} (lists of at most 16 ops, mostly bulk ops, there), bound on open iterators from {1,2,3,6,12,24}; besides the single calls the list may hold bulk ops - add/remove a key range (either direction), "
+         "1..4 rounds of fill-and-drain of a key range followed by a refill (churn), open n iterators, n x Next on one or on every open iterator, "
+         "close all, and a full scan with a fresh iterator compared with the model's live order - which Run expands into the single calls and judges one by one "
+         "with the same model (at most 30000 single calls per case, 30000+4*keys beyond 1024 keys; the rest of the list is dropped). On a map with more than 8 keys or more than "
          "8 open iterators Len is checked after every single call but Get only for the key of the call and two rotating keys; Get of every key "
-         "follows every op of the list and the end of the case. A case in which a call of the map does not return (5 s of process CPU time burnt "
+         "follows every op of the list (beyond 1024 keys: every bulk op) and the end of the case. A case in which a call of the map does not return (5 s of process CPU time burnt "
          "by one case; a case costs milliseconds) is reported as map:hang by a watchdog. Every case ends "
          "with closing the iterators still open, then First/Len/Get and a fresh full iteration. Excluded by the documented "
          "precondition of Close: using an iterator after Close, closing it twice. non-trivial = the case closes or advances an iterator "
@@ -33,7 +34,7 @@ PROPS["C10"] = dict(
 
 LEVEL_TEXT["C10"] = (
     "Generated-input search with an exact oracle: every history over the full op alphabet up to a depth bound for 2 keys / 2 iterators "
-    "and 3 keys / 3 iterators (run through its canonical representative), plus random long histories (up to 400 ops incl. bulk ops, up to 300 keys, "
+    "and 3 keys / 3 iterators (run through its canonical representative), plus random long histories (up to 400 ops incl. bulk ops, up to 5000 keys, "
     "up to 24 simultaneously open iterators, big fills and drains, re-added keys) are compared call by call with a sequence-number model of the ordered map, and "
     "every case is finished by closing all iterators and using the map again. No counterexample among the cases counted in the "
     "evidence; not a proof for longer histories or larger maps."
